@@ -129,10 +129,11 @@ def generate(rng, tier):
     procs = rng.choice([1, 1, 2, 2, 3, 4, 5, 8, 16, rng.randint(2, 16)])
     fail = None
     r = rng.random()
+    exc = rng.choice(["BatchFailure"] * 4 + sorted(W.FAIL_EXC))
     if r < 0.12:
-        fail = {"k": "all", "where": rng.choice(["ctor", "system"]), "t": rng.randint(0, 3)}
+        fail = {"k": "all", "where": rng.choice(["ctor", "system"]), "t": rng.randint(0, 3), "exc": exc}
     elif r < 0.25:
-        fail = {"k": rng.randrange(size * reps), "where": rng.choice(["ctor", "system"]), "t": rng.randint(0, 3)}
+        fail = {"k": rng.randrange(size * reps), "where": rng.choice(["ctor", "system"]), "t": rng.randint(0, 3), "exc": exc}
     second = None
     if fail is None and coll["form"] != "invalid" and rng.random() < 0.3:
         # a second, different batch in the same process: nothing of the first may carry over
@@ -254,8 +255,16 @@ def one_batch(ctx, sc, fail, label):
             ctx.fault("pool.fail")
             ctx.probe("fail_first" if k == 0 else ("fail_last" if k == len(E) - 1 else "fail_middle"))
             ctx.check(st == "exc", "error-dropped",
-                      f"execution #{k} ({sig}) raised BatchFailure in {fail['where']} but batch_run returned normally")
-            ctx.check(isinstance(val, W.BatchFailure), "error-replaced", f"caller saw {type(val).__name__}: {val}")
+                      f"execution #{k} ({sig}) raised {fail.get('exc', 'BatchFailure')} in {fail['where']} with "
+                      f"processes={sc['processes']} but batch_run returned normally")
+            want_exc = W.FAIL_EXC.get(fail.get("exc", "BatchFailure"), W.BatchFailure)
+            if want_exc is StopIteration:
+                # a StopIteration cannot travel through an iterator protocol as an error; the documented way out is the
+                # PEP 479 conversion, so a RuntimeError reaching the caller counts as "the error reached the caller"
+                want_exc = (StopIteration, RuntimeError)
+            ctx.check(isinstance(val, want_exc), "error-replaced",
+                      f"execution raised {fail.get('exc', 'BatchFailure')}, caller saw {type(val).__name__}: {val}")
+            ctx.probe("fail_exc_" + fail.get("exc", "BatchFailure"))
             return {"comp": comp, "failed": True}
     if st != "ok":
         ctx.fail("batch:unexpected-exception", f"{type(val).__name__}: {val}")
@@ -333,10 +342,12 @@ def execute(sc, ctx):
     elif fail["k"] == "all":
         info = {}
         for k in range(n):
-            info = one_batch(ctx, sc, {"k": k, "where": fail["where"], "t": fail.get("t", 0)}, f"batch-fail-{k}")
+            info = one_batch(ctx, sc, {"k": k, "where": fail["where"], "t": fail.get("t", 0), "exc": fail.get("exc", "BatchFailure")},
+                             f"batch-fail-{k}")
         shape["fail"] = ["all", fail["where"]]
     else:
-        info = one_batch(ctx, sc, {"k": int(fail["k"]) % n, "where": fail["where"], "t": fail.get("t", 0)}, "batch-fail")
+        info = one_batch(ctx, sc, {"k": int(fail["k"]) % n, "where": fail["where"], "t": fail.get("t", 0),
+                                   "exc": fail.get("exc", "BatchFailure")}, "batch-fail")
         shape["fail"] = [int(fail["k"]) % n, fail["where"]]
     ctx.sim_time += sum(len(e["ticks"]) for e in W.LEDGER)
     comp = info.get("comp")
